@@ -1,7 +1,9 @@
 SPECIFICATION Spec
 CONSTANT HdrSets <- ThoroughHdrSets
 CONSTANT Methods <- AllMethods
+CONSTANT SeqDom <- ThoroughSeqDom
 CONSTANT Schemes <- AllSchemes
 INVARIANT TypeOK
 INVARIANT InvC13
 INVARIANT InvExpected
+INVARIANT InvSeqConn
